@@ -677,6 +677,9 @@ class Interp:
                     continue
                 if idx in (TRUE, FALSE):
                     idx = ("const", 1 if idx == TRUE else 0)   # a bool used as an index is 0 / 1
+                if getattr(d, "exact_lists", False) and (base in (NONE, TRUE, FALSE) or (isinstance(base, tuple) and base[:1] == ("const",) and isinstance(base[1], (int, float)))):
+                    out.append(exc(("exc", "TypeError"), r.state))   # a number / None / a bool is not subscriptable
+                    continue
                 if isinstance(base, tuple) and base and base[0] == "tuple" and isinstance(idx, tuple) and idx[0] == "const" and isinstance(idx[1], int) and -len(base) < idx[1] < len(base) - 1:
                     v = base[1 + idx[1]] if idx[1] >= 0 else base[idx[1]]
                 out.append(val(v, r.state))
